@@ -350,6 +350,62 @@ class Stack:
         v.tagnote = ("interp" if swap_interp else "") + ("+store" if swap_store else "")
         return v
 
+    def partner(self):
+        """a compatible stack in the sense of C05: the same layers with another storage order (and the other
+        interpolation method); only for the family the library converts: affine / interpolator / order / array"""
+        import copy
+        kinds = [l["kind"] for l in self.layers]
+        if not self.has_array() or not any(k in ORDER for k in kinds):
+            return None
+        if any(k not in ("affine", "linear", "nn", "array") + tuple(ORDER) for k in kinds):
+            return None
+        v = copy.deepcopy(self)
+        for i, l in enumerate(v.layers):
+            if l["kind"] in ORDER:
+                if l["kind"] == "strided":
+                    l["kind"] = "hilbert" if (self.n == 2 and self.salt % 2) else ("morton_t" if self.salt % 3 else "morton_f")
+                else:
+                    l["kind"] = "strided"
+                l["bmi2"] = l["kind"] == "morton_t"
+                ext = l["ext"]
+                if l["kind"] == "strided":
+                    ln = 1
+                    for e in ext:
+                        ln *= e
+                else:
+                    side = 1
+                    while side < max(ext):
+                        side *= 2
+                    ln = side ** len(ext)
+                v.layers[i + 1]["len"] = ln
+            elif l["kind"] in INTERP:
+                l["kind"] = "nn" if l["kind"] == "linear" else "linear"
+        v.retype()
+        return v if v.ok else None
+
+    def view_bytes(self):
+        """upper estimate of sizeof(field_view): field_view rejects storage above 256 bytes"""
+        size = {"float": 4, "double": 8, "int": 4, "unsigned": 4, "size_t": 8, "long": 8}
+        total = 0
+        for l in self.layers:
+            k = l["kind"]
+            if k == "affine":
+                total += l["in"][1] * (l["in"][1] + 1) * size[l["in"][0]]
+            elif k == "clamp":
+                total += 2 * l["in"][1] * size[l["in"][0]]
+            elif k == "backup":
+                total += 2 * l["in"][1] * size[l["in"][0]] + l["out"][1] * size[l["out"][0]]
+            elif k in ORDER:
+                total += 8 * l["in"][1]
+            elif k == "array":
+                total += 16
+            elif k == "constant":
+                total += l["out"][1] * size[l["out"][0]]
+            else:
+                total += 1
+            total = (total + 7) // 8 * 8
+        return total
+
     def has_interp(self):
         return any(l["kind"] in INTERP for l in self.layers)
 
@@ -556,11 +612,25 @@ class Stack:
     def backend_chain(self, i, obj="f.backend()"):
         return obj + ".get_backend()" * i
 
-    def emit(self, sid):
-        """C++ struct Z<sid> describing this stack"""
+    def order_model_expr(self):
+        """model of this stack's storage-order layer over identity: maps a lattice coordinate to the flat index"""
+        for l in self.layers:
+            if l["kind"] in ORDER:
+                fn = {"strided": "strided", "morton_t": "morton", "morton_f": "morton", "hilbert": "hilbert"}[l["kind"]]
+                return "model::%s({%s}, model::identity())" % (fn, ", ".join(str(e) for e in l["ext"]))
+        return None
+
+    def emit(self, sid, suffix="", partner=None, like=None):
+        """C++ struct Z<sid><suffix> describing this stack; `partner` names a compatible stack's struct;
+        `like` is the stack whose lattice values this one must hold (for conversions)"""
         d = self.depth()
         L = []
-        L.append("struct Z%d {" % sid)
+        L.append("struct Z%d%s {" % (sid, suffix))
+        if partner:
+            L.append("    static constexpr bool has_partner = true;")
+            L.append("    using partner = %s;" % partner)
+        else:
+            L.append("    static constexpr bool has_partner = false;")
         for a in self.type_aliases():
             L.append("    " + a)
         L.append("    using backend_t = B0;")
@@ -589,6 +659,24 @@ class Stack:
         else:
             L.append("    static void fill(field_t &) {}")
         L.append("    static model::P make_model() { return %s; }" % self.model_expr())
+        if like is not None:
+            oi = [i for i, l in enumerate(self.layers) if l["kind"] in ORDER][0]
+            ext = self.layers[oi]["ext"]
+            n = len(ext)
+            L.append("    // holds, at every lattice coordinate, the value the original stack holds there")
+            L.append("    static void fill_like(field_t & f) {")
+            L.append("        model::P idx = %s;" % like.order_model_expr())
+            L.append("        typename B%d::non_owning_data_t v(%s);" % (oi, self.backend_chain(oi)))
+            L.append("        const uint64_t ext[%d] = {%s}; uint64_t c[%d] = {};" % (n, ", ".join(str(e) for e in ext), n))
+            L.append("        for (;;) {")
+            L.append("            model::Vec mc(%d); typename B%d::contravariant_input_t::vector_t cc;" % (n, oi))
+            L.append("            for (int k = 0; k < %d; ++k) { mc[k] = (model::Q)c[k]; cc[k] = c[k]; }" % n)
+            L.append("            uint64_t i = (uint64_t)idx->at(mc).v[0];")
+            L.append("            for (uint64_t j = 0; j < array_m; ++j) v.at(cc)[j] = (%s)fillval(i, j, %d);" % (CXX[self.layers[-1]["out"][0]], like.salt))
+            L.append("            int k = 0; while (k < %d && ++c[k] >= ext[k]) c[k++] = 0;" % n)
+            L.append("            if (k == %d) break;" % n)
+            L.append("        }")
+            L.append("    }")
         # per-layer configuration read-back
         checks = []
         for i in range(d):
@@ -674,7 +762,7 @@ def select(seed, tier, limit=None):
         h = int(hashlib.sha256(("%d|%s" % (seed, "/".join(seq))).encode()).hexdigest()[:12], 16)
         for attempt in range(8):
             st = Stack(seq, random.Random(h + attempt), ordinal + attempt)
-            if st.ok:
+            if st.ok and st.view_bytes() <= 224:   # a view above 256 bytes is ill-kinded (static_assert in field_view)
                 stacks.append(st)
                 break
     return stacks
@@ -710,12 +798,17 @@ static inline int fillval(uint64_t i, uint64_t j, int salt) { return (int)((i * 
 '''
 
 
-def translation_unit(stacks, first_id, driver_include, driver_call, extra_calls=()):
+def translation_unit(stacks, first_id, driver_include, driver_call, extra_calls=(), with_partners=False):
     """one TU for a batch of stacks; driver_call is a format string with {Z}; extra_calls are raw statements"""
     parts = [PRELUDE, '#include "%s"' % driver_include]
     ids = []
     for k, st in enumerate(stacks):
-        parts.append(st.emit(first_id + k))
+        pt = st.partner() if with_partners else None
+        if pt is not None:
+            parts.append(pt.emit(first_id + k, suffix="p", like=st))
+            parts.append(st.emit(first_id + k, partner="Z%dp" % (first_id + k)))
+        else:
+            parts.append(st.emit(first_id + k))
         ids.append(first_id + k)
     parts.append("int main(int argc, char ** argv) {\n    vh::init(argc, argv);")
     for i in ids:
